@@ -25,3 +25,4 @@ open RV.C11
 #print axioms api_dispatch
 #print axioms api_unique_nodup
 #print axioms api_dispatch_correct_partial
+#print axioms mul_first_flag
